@@ -42,25 +42,27 @@ var recSvc = ev.New(prop, "service-hostile",
 		"requests routed to upstream clients whose server is the harness answering with hostile replies (socks5/http/ss2022 TCP, socks5/none/ss2022 UDP); requests whose route "+
 		"needs a DNS lookup answered by hostile DNS-over-TCP replies. After every operation the canary tunnel must echo; after every batch a fresh SOCKS5 CONNECT, a direct-server "+
 		"connection and a UDP exchange must work. Non-trivial: the operation reached a listener and (for via/dns) the hostile upstream was actually consulted; distinct key = kind + listener + build + close mode").
-	Require("kind:tcp", "kind:udp", "kind:via-tcp", "kind:via-udp", "kind:dns", "upstream-consulted", "dns-consulted", "listener:ss128/udpmm", "listener:none/udp", "listener:s5/udpmm")
+	Require("kind:tcp", "kind:udp", "kind:via-tcp", "kind:via-udp", "kind:dns", "upstream-consulted", "dns-consulted",
+		"udp-batch:no", "udp-batch:sendmmsg", "proto:s5", "proto:http", "proto:none", "proto:ss128", "proto:ss256", "proto:ssfb", "proto:direct")
 
 // ---- plan (journaled as JSON)
 
 type svcOp struct {
-	Kind      string   `json:"kind"`             // tcp | udp | via-tcp | via-udp | dns
-	Listener  string   `json:"listener"`         // key into env.ports
-	Build     string   `json:"build"`            // raw | ss-tcp | ss-udp
-	Sel       uint8    `json:"sel,omitempty"`    // ss2022 builder selector
-	Data      []string `json:"data"`             // hex: stream (one entry) or datagrams
-	Cuts      []int    `json:"cuts,omitempty"`   // stream chunk boundaries
-	Close     string   `json:"close,omitempty"`  // close | half | rst | linger
-	Reply     string   `json:"reply,omitempty"`  // hex: hostile upstream / DNS reply
+	Kind      string   `json:"kind"`            // tcp | udp | via-tcp | via-udp | dns
+	Listener  string   `json:"listener"`        // key into env.ports
+	Build     string   `json:"build"`           // raw | ss-tcp | ss-udp
+	Sel       uint8    `json:"sel,omitempty"`   // ss2022 builder selector
+	Data      []string `json:"data"`            // hex: stream (one entry) or datagrams
+	Cuts      []int    `json:"cuts,omitempty"`  // stream chunk boundaries
+	Close     string   `json:"close,omitempty"` // close | half | rst | linger
+	Reply     string   `json:"reply,omitempty"` // hex: hostile upstream / DNS reply
 	ReplyMode string   `json:"replyMode,omitempty"`
 	ReplySel  uint8    `json:"replySel,omitempty"`
 	Note      string   `json:"note,omitempty"`
 }
 
 type svcPlan struct {
+	Type   string  `json:"type"` // "service-plan"
 	Bitmap bool    `json:"bitmapRoute"`
 	Ops    []svcOp `json:"ops"`
 }
@@ -577,7 +579,9 @@ func (env *svcEnv) installReply(op svcOp) {
 	reply := unhex(op.Reply)
 	switch op.ReplyMode {
 	case "ss-tcp":
-		env.evil.setScript(func(req []byte) []byte { return ssClientWire(op.ReplySel&(ssRaw|ssFixTS|ssFixLen|ssFixSalt), reply, req, env.ccEvil) })
+		env.evil.setScript(func(req []byte) []byte {
+			return ssClientWire(op.ReplySel&(ssRaw|ssFixTS|ssFixLen|ssFixSalt), reply, req, env.ccEvil)
+		})
 	default:
 		env.evil.setScript(func([]byte) []byte { return reply })
 	}
@@ -739,15 +743,15 @@ func mutate(rt *rapid.T, b []byte) []byte {
 }
 
 type seedPools struct {
-	s5, http, none, ss       [][]byte
-	ssSel                    []uint8
-	pktS5, pktNone           [][]byte
-	ssU                      [][]byte
-	ssUSel                   []uint8
-	s5c, httpc, ssc, dnsr    [][]byte
-	sscSel                   []uint8
-	pktClient, ssUC          [][]byte
-	ssUCSel                  []uint8
+	s5, http, none, ss    [][]byte
+	ssSel                 []uint8
+	pktS5, pktNone        [][]byte
+	ssU                   [][]byte
+	ssUSel                []uint8
+	s5c, httpc, ssc, dnsr [][]byte
+	sscSel                []uint8
+	pktClient, ssUC       [][]byte
+	ssUCSel               []uint8
 }
 
 var (
@@ -981,13 +985,19 @@ func journalPath() string {
 
 func executePlan(t failer, env *svcEnv, plan svcPlan) {
 	if jp := journalPath(); jp != "" {
+		plan.Type = "service-plan"
 		b, _ := json.Marshal(plan)
 		_ = os.WriteFile(jp, b, 0o644)
 		defer os.Remove(jp)
 	}
 	for i, op := range plan.Ops {
 		reached, consulted := env.run(op)
-		labels := []string{"kind:" + op.Kind, "listener:" + op.Listener, "build:" + op.Build}
+		labels := []string{"kind:" + op.Kind, "listener:" + op.Listener, "build:" + op.Build, "proto:" + strings.TrimSuffix(strings.SplitN(op.Listener, "/", 2)[0], "auth")}
+		if strings.HasSuffix(op.Listener, "/udpmm") {
+			labels = append(labels, "udp-batch:sendmmsg")
+		} else if strings.HasSuffix(op.Listener, "/udp") {
+			labels = append(labels, "udp-batch:no")
+		}
 		if consulted {
 			if op.Kind == "dns" {
 				labels = append(labels, "dns-consulted")
@@ -1053,8 +1063,8 @@ func TestReplayService(t *testing.T) {
 		t.Fatal(err)
 	}
 	var plan svcPlan
-	if err := json.Unmarshal(b, &plan); err != nil {
-		t.Fatalf("not a service plan: %v", err)
+	if err := json.Unmarshal(b, &plan); err != nil || plan.Type != "service-plan" {
+		t.Skip("not a service plan journal")
 	}
 	env, err := startService(plan.Bitmap)
 	if err != nil {
